@@ -59,6 +59,8 @@ def trace_stats(trace_path):
             d[k] = d.get(k, 0) + 1
             if k == "ret" and e.get("ok") == 0:
                 d["panic:" + e.get("kind", "")] = d.get("panic:" + e.get("kind", ""), 0) + 1
+            if k == "hk":
+                d["hk:" + e.get("name", "")] = d.get("hk:" + e.get("name", ""), 0) + 1
             if k == "op":
                 d["op:" + e.get("op", "")] = d.get("op:" + e.get("op", ""), 0) + 1
     return stats
